@@ -449,7 +449,42 @@ pub fn check_bytes(bytes: &[u8], must_reject: bool, expect: Option<&TimeZone>, s
             other => return Err(format!("file written from zone {x:?} decodes to {other:?} ({})", hex())),
         }
     }
+    // The same bytes reached through the other public decoding entry point — a file found by `TimeZoneSettings` — must be decoded
+    // or rejected exactly like `from_tz_data` does, whatever the file is called: under an ordinary name, under a name that is also
+    // a complete TZ description ("UTC0": a rejected file must not silently turn into the description's zone), with the ':' prefix,
+    // as an absolute path and as /etc/localtime (seeded change C08-r9m2). One byte string in four (all must-reject cases).
+    if must_reject || bytes.len() % 4 == 0 {
+        ENTRY_BYTES.with(|b| *b.borrow_mut() = bytes.to_vec());
+        let settings = tz::timezone::TimeZoneSettings::new(&["/zi"], entry_read);
+        for name in ["Zone/A", "UTC0", ":UTC0", "/zi/EST5", "localtime", "<+03>-3"] {
+            st.eval(1);
+            let via = settings.parse_posix_tz(name);
+            let same = match (&got, &via) {
+                (Ok(a), Ok(b)) => a == b,
+                // a rejected file stays a decoding error (a footer defect is reported as a TZ-string / rule error), never an I/O error or a zone
+                (Err(_), Err(tz::Error::Tz(_))) => true,
+                _ => false,
+            };
+            if !same {
+                let shown = match &via {
+                    Ok(z) => format!("Ok({z:?})"),
+                    Err(e) => format!("Err({e:?})"),
+                };
+                return Err(format!("the file read through TimeZoneSettings under the name {name:?} gives {shown}, but from_tz_data on the same bytes gives {:?} ({})", got.as_ref().map_err(|e| format!("{e:?}")), hex()));
+            }
+        }
+        st.class("entry_points_agree");
+    }
     Ok(())
+}
+
+thread_local! {
+    static ENTRY_BYTES: std::cell::RefCell<Vec<u8>> = const { std::cell::RefCell::new(Vec::new()) };
+}
+
+/// Read function of the entry-point comparison: every path holds the byte string under test (harness state, thread-local).
+fn entry_read(_path: &str) -> Result<Vec<u8>, Box<dyn std::error::Error + Send + Sync + 'static>> {
+    Ok(ENTRY_BYTES.with(|b| b.borrow().clone()))
 }
 
 /// The bytes of a file case (None: zone not representable in that version, or defect not applicable).
@@ -676,7 +711,7 @@ pub fn run(ctx: &Ctx) -> Outcome {
         }
         FileCase { zone, version, ent, defect }
     });
-    let cases = ctx.tier.pick(10_000u32, 400_000u32);
+    let cases = ctx.tier.pick(40_000u32, 400_000u32);
     let rs = par_shards(16, |shard, st| pt_shard(ctx, "file", shard, cases, &strat, st, check_file));
     out.absorb_all(rs);
     let _ = MRule::d;
